@@ -97,7 +97,7 @@ def _newick_swapped(case, rng, allow_root_swap):
 
 
 def _size(case):
-    return 3 if case["datatype"]["kind"] == "codon" else 1
+    return 3 if case["datatype"]["kind"] == "codon" else case["datatype"].get("width", 1)
 
 
 def _columns(case):
@@ -157,7 +157,7 @@ def orbit(case):
     out.append(("alignment-file", v, 1.0))
     # 6e the site pattern restricted to "all columns" written as several pieces (a rotation, odd and even columns): the same data
     ncols_ = len(next(iter(case["seqs"].values())))
-    if case["datatype"]["kind"] != "codon" and ncols_ >= 2:
+    if case["datatype"]["kind"] != "codon" and case["datatype"].get("width", 1) == 1 and ncols_ >= 2:
         v = copy.deepcopy(case)
         k_ = int(rng.integers(1, ncols_))
         # (also pieces read backwards - a negative step with an open stop - and bounds counted from the end)
@@ -172,7 +172,7 @@ def orbit(case):
     # 6d discrete trait: one symbol per taxon, given as a one-column alignment and as a taxon attribute (AttributePattern), tip partials and tip states
     if case["datatype"]["kind"] == "general":
         va = copy.deepcopy(case)
-        va["seqs"] = {nm: sq[:1] for nm, sq in case["seqs"].items()}
+        va["seqs"] = {nm: sq[:case["datatype"].get("width", 1)] for nm, sq in case["seqs"].items()}
         out.append(("one-column-alignment", va, None))
         vb = phylo.as_attribute_case(case)
         out.append(("trait-attribute", vb, "one-column-alignment"))
@@ -251,6 +251,7 @@ def run_case(case):
     known_p0 = False
     if np.isfinite(ref) and abs(base - ref) > 1e-9 * max(1.0, abs(ref)):
         V.append(tt.viol("C02:base-differs-from-reference", "base member %.15g differs from the exact marginalisation %.15g (see C01)" % (base, ref), case=case))
+    held = None
     for name, v, mult in orbit(case):
         if name not in C["relations"]:
             C["relations"].append(name)
@@ -259,6 +260,8 @@ def run_case(case):
         except Exception as e:
             if tt_blame_subject(e):
                 V.append(tt.viol("C02:%s:raises:%s" % (name, type(e).__name__), "equivalent specification (%s) raises %s: %s" % (name, type(e).__name__, str(e)[:200]), case=case, variant=v))
+                if mult is None:
+                    held = None
                 continue
             raise
         x = float(tt.as_np(val2, "C02:not-a-tensor").reshape(-1)[0])
@@ -268,6 +271,8 @@ def run_case(case):
         C["pairs_compared"] += 1
         if name == "reroot":
             C["rerootings"] += 1
+        if isinstance(mult, str) and held is None:
+            continue  # (its partner raised: reported above)
         exp = held if isinstance(mult, str) else mult * base
         mult = 1.0 if isinstance(mult, str) else mult
         if not np.isfinite(x) or abs(x - exp) > 1e-10 * max(1.0, abs(exp)):
@@ -276,7 +281,7 @@ def run_case(case):
     # partitions: site patterns over complementary column subsets of the *same* alignment object, sharing tree and models,
     # add up to the likelihood of the whole alignment
     ncols = len(next(iter(case["seqs"].values())))
-    if case["datatype"]["kind"] != "codon" and ncols >= 2:
+    if case["datatype"]["kind"] != "codon" and case["datatype"].get("width", 1) == 1 and ncols >= 2:
         spec = phylo.likelihood_json(case)
         parts = [("::2", "1::2"), ("::3", "1::3", "2::3"), (":1", "1:")][int(ncols) % 3]
         for k, ind in enumerate(parts):
